@@ -11,7 +11,7 @@ R03.round  round(n), n = 0..9 and n >= 10: sign re-attached unchanged, low 10-n 
            truncation exactly when rounding reaches the infinity pattern
 R03.io     operator<< inserts float(h) once and touches no formatting state; operator>> extracts one float and stores half(f)
 R03.hf     halfFunction: table size = loop bound = 2^16 = index range; decision order NaN -> inf (by sign)
-           -> outside domain -> f(x); operator() returns _lut[x.bits()]
+           -> outside domain -> f(x), for both signs and zero / subnormal / normal exponent fields; operator() returns _lut[x.bits()]
 """
 import re, subprocess, math
 from fractions import Fraction
